@@ -51,8 +51,43 @@ func realOutcome(d *Decl, rr *RealResult) string {
 	return s
 }
 
+// clashCluster: a cluster token whose first letter is declared differently at two
+// levels of the active chain (flag at one level, argument-taking at another).
+func clashCluster(t *rapid.T, d *Decl, args []string) []string {
+	ws, ok := WalkPrefix(d, args)
+	if !ok || len(ws.Chain) < 2 {
+		return nil
+	}
+	var cands []string
+	for i, cm := range ws.Chain {
+		for _, o := range d.CmdOpts(cm, ws.Chain[:i+1]) {
+			if o.Short == "" {
+				continue
+			}
+			in := ws.Short[o.Short]
+			if in == nil || in.ID == o.ID {
+				continue
+			}
+			// o is shadowed by in; interesting when their arities differ
+			if in.Kind.IsFlag() != o.Kind.IsFlag() {
+				cands = append(cands, o.Short)
+			}
+		}
+	}
+	if len(cands) == 0 {
+		return nil
+	}
+	sortStrings(cands)
+	s := rapid.SampledFrom(cands).Draw(t, "clashShort")
+	tail := rapid.SampledFrom([]string{s, "x", "v", "1", "=1", ""}).Draw(t, "clashTail")
+	return []string{"-" + s + tail}
+}
+
 func genC08(t *rapid.T) *C08Case {
 	pc := genParseCase(t, c08Decl, c08Argv)
+	if extra := clashCluster(t, pc.D, pc.Args); extra != nil && rapid.Bool().Draw(t, "useClash") {
+		pc.Args = append(pc.Args, extra...)
+	}
 	c := &C08Case{ParseCase: *pc}
 	ref := Ref(&RefInput{D: c.D, Args: c.Args})
 	if ref.Undetermined != "" {
